@@ -28,7 +28,7 @@ ANCHORS = ["AND._evaluate__", "Union._evaluate__", "ElseIf._evaluate__", "Not._e
            "QueryObjectDescriptor.evaluate_selected_variables", "QueryObjectDescriptor.get_constrained_values"]
 
 FAMILIES = [("core", 30), ("rich", 25), ("flat", 8), ("sub", 6), ("E1", 6), ("E2", 5), ("forall", 6),
-            ("forall0", 3), ("msb", 6), ("msu", 2), ("core_ne", 5), ("fnfalsy", 1), ("forallz", 1), ("E2z", 1), ("porder", 4), ("scalar", 2), ("scalar0", 3), ("subscalar", 3), ("qnest", 7), ("qreuse", 2), ("qq", 3)]
+            ("forall0", 3), ("msb", 6), ("msu", 2), ("core_ne", 5), ("fnfalsy", 1), ("forallz", 1), ("E2z", 1), ("porder", 4), ("scalar", 2), ("scalar0", 3), ("subscalar", 3), ("qnest", 10), ("qreuse", 2), ("qq", 3)]
 
 
 def plan(tier):
@@ -351,6 +351,16 @@ def classify(spec, m, objs, got, exp, err):
             non = None
         if non is not None and non != se and sg <= non:
             return "short-circuit-empty-domain"
+    if missing and G.empty_range_vars(spec, m, objs):
+        # the same mechanism below a negation turns into missing rows: listed only when the reading in which the atoms
+        # about a variable without values produce nothing predicts exactly what krrood returned
+        for mode in ("nothing", "kleene"):
+            try:
+                counterfactual = set(G.oracle(spec, m, objs, mode=mode))
+            except G.OracleError:
+                continue
+            if counterfactual != se and counterfactual == sg:
+                return "short-circuit-empty-domain"
     if qi["exists_free"] and missing and not extra:
         return "exists-dedup"
     if _exists_leaves_variable_bound(spec):
